@@ -114,12 +114,59 @@ StepVerdict(r) ==
         ELSE IF ~EntsOK(F, pre, a, r) THEN Bad("unexplained", 0)             \* counted, not a verdict
         ELSE Good
 
+\* --- a lookup spanning several buckets (k = "scan") is in progress while one call is made:
+\*   r.a = [kind: search_star | search_exact | items_class | items_target, m, stem, star, hits, mut]
+\*   r.got = <<key, entity>>... in the order delivered (key = the bucket's key for items_*, "" for
+\*   search), the first r.nbefore of them before the call.
+\* Matches: the entity, as it is when delivered after the call, still answers the lookup it came from.
+ScanMatches(F, st, a, d) ==
+    LET x == d[2] IN
+    x \in DOMAIN st.ent /\ st.ent[x].home = a.m /\ st.ent[x].inmap /\
+    (CASE a.kind = "items_class"  -> Fd(F.fold, st.ent[x].cls) = Fd(F.fold, d[1])
+       [] a.kind = "items_target" -> Fd(F.fold, st.ent[x].name) = Fd(F.fold, d[1])
+       [] OTHER -> x \in Search(F, st, a.m, [stem |-> Fd(F.fold, a.stem), star |-> a.star, hits |-> ToSet(a.hits)]))
+\* were two deliveries read from the same bucket (as filed before the call)?  A search walks the
+\* name buckets and, for an exact pattern, the class bucket of that name.
+SameBucket(F, pre, a, d, e) ==
+    LET x == d[2] y == e[2] IN
+    IF x \notin DOMAIN pre.ent \/ y \notin DOMAIN pre.ent THEN FALSE
+    ELSE IF a.kind \in {"items_class", "items_target"} THEN Fd(F.fold, d[1]) = Fd(F.fold, e[1])
+    ELSE \/ Fd(F.fold, pre.ent[x].name) = Fd(F.fold, pre.ent[y].name)
+         \/ (~a.star /\ Fd(F.fold, pre.ent[x].cls) = Fd(F.fold, a.stem) /\ Fd(F.fold, pre.ent[y].cls) = Fd(F.fold, a.stem))
+ScanAll(F, st, a) ==
+    IF a.kind \in {"items_class", "items_target"} THEN InMap(st, a.m)
+    ELSE Search(F, st, a.m, [stem |-> Fd(F.fold, a.stem), star |-> a.star, hits |-> ToSet(a.hits)])
+ScanVerdict(r) ==
+    LET F == FoldOf(r)
+        ids == DOMAIN r.pre.ent \cup DOMAIN r.post.ent
+        pre == [StOf(F, r.pre) EXCEPT !.ent = Pad(@, ids)]
+        post == [StOf(F, r.post) EXCEPT !.ent = Pad(@, ids)]
+        sv == StateVerdict(F, r.post)
+        after == {k \in DOMAIN r.got : k > r.nbefore}
+        \* the bucket being walked when the call was made: CopySet hands out what it held when its
+        \* iteration began, so its remaining members may still come (the statement's "iterating while
+        \* mutating" is about not failing and not losing anyone); every OTHER bucket is read after the call
+        stale == {k \in after : /\ ~ScanMatches(F, post, r.a, r.got[k])
+                                 /\ ~(r.nbefore > 0 /\ SameBucket(F, pre, r.a, r.got[k], r.got[r.nbefore]))}
+        delivered == {r.got[k][2] : k \in DOMAIN r.got}
+    IN  IF ~(CanonSt(F, r.pre) /\ StateVerdict(F, r.pre).ok) THEN Bad("tainted", 0)
+        ELSE IF ~sv.ok THEN sv
+        ELSE IF r.exc # "" THEN Bad("iter.exc", r.exc)
+        ELSE IF stale # {} THEN Bad("iter.stale", [delivered |-> {r.got[k] : k \in stale}, nbefore |-> r.nbefore])
+        \* everybody the call did not touch and who answers the lookup before and after it is delivered
+        \* (the entity the call re-files may be missed: the buckets are read as they are when reached)
+        ELSE IF ~(((ScanAll(F, pre, r.a) \cap ScanAll(F, post, r.a)) \ {r.a.mut.x}) \subseteq delivered)
+            THEN Bad("iter.delivered", (ScanAll(F, pre, r.a) \cap ScanAll(F, post, r.a)) \ delivered)
+        ELSE IF ~EntsOK(F, pre, r.a.mut, r) THEN Bad("unexplained", 0)
+        ELSE Good
+
 \* a state that is not the result of a modelled call (e.g. straight after VMF.parse)
 OnlyState(r) ==
     LET F == FoldOf(r) sv == StateVerdict(F, r.post) IN IF ~sv.ok THEN sv ELSE SearchVerdict(F, r.post)
 
 Verdict(r) == CASE r.k = "step" -> StepVerdict(r)
                 [] r.k = "iter" -> StepVerdict(r)
+                [] r.k = "scan" -> ScanVerdict(r)
                 [] r.k = "state" -> OnlyState(r)
 
 Init == i = 0
